@@ -4,8 +4,8 @@ import TunnoxModel.Model.C17Slot
 /-!
 Line protocol for C17.
 
-case  := `p <proto> lim <L> pre <k> thr <n> (<inst> <nops> (a|r|o)*)*   (a = admission, r = release own, o = admission of another client) sch <m> <tid>*`
-proto := `conn` | `ctrl` | `ctrlx` (Register with gated stream Close) | `tun` | `map` | `mapu` | `code` | `mapq`   (the instances of Model/C17; `mapu` = `map` with the limit taken from the user quota)
+case  := `p <proto> lim <L> pre <k> [dead <d>] thr <n> (<inst> <nops> (a|r|o)*)*   (a = admission, r = release own, o = admission of another client) sch <m> <tid>*`
+proto := `conn` | `conng` (connections without an id of their own: one step) | `ctrl` | `ctrlx` (Register with gated stream Close) | `tun` | `map` | `mapu` | `code` | `mapq`   (the instances of Model/C17; `mapu` = `map` with the limit taken from the user quota)
 obs   := event* `|` item*
 event := `stp.<tid>.<n>` | `blk.<tid>.<n>` | `adm.<tid>.<item>.<victim or ->.<n>` | `ref.<tid>.<dirty>.<n>`
        | `rel.<tid>.<item>.<n>` | `nop.<tid>.<n>`
@@ -17,6 +17,7 @@ open Tunnox.C17 Gen
 
 def protoOf : String → Option Proto
   | "conn" => some protoConn
+  | "conng" => some protoTun
   | "ctrl" => some protoCtrl
   | "ctrlx" => some protoCtrlX
   | "tun" => some protoTun
@@ -84,8 +85,15 @@ def parseThreads : Nat → List String → Option (List (Nat × List Op) × List
     pure ((inst, ops) :: thrs, rest)
   | _, _ => none
 
+/-- `dead d`: the client has `d` revoked entries in its index; every count reads them too. -/
+def withDead (P : Proto) (d : Nat) : Proto := { P with cnt := fun n => if P.cnt 1 = 0 then 0 else P.cnt n + d }
+
 def parseCase (ts : List String) : Option Case :=
   match ts with
+  | "p" :: p :: "lim" :: l :: "pre" :: k :: "dead" :: d :: "thr" :: nt :: rest => do
+    let d ← d.toNat?
+    let c ← parseCase ("p" :: p :: "lim" :: l :: "pre" :: k :: "thr" :: nt :: rest)
+    if p == "code" || p == "mapq" then pure { c with proto := withDead c.proto d } else none
   | "p" :: p :: "lim" :: l :: "pre" :: k :: "thr" :: nt :: rest => do
     let P ← protoOf p; let l ← l.toNat?; let k ← k.toNat?; let nt ← nt.toNat?
     let (progs, rest) ← parseThreads nt rest
@@ -125,12 +133,13 @@ def capsLine : String :=
   s!"maxconn={lim_session.DefaultMaxConnections} maxctrl={lim_session.DefaultMaxControlConnections} " ++
   s!"codes={lim_conncode.MaxActiveCodesPerClient} mappings={lim_conncode.MaxActiveMappingsPerClient}"
 
-/-! ### slot scenarios: `slot lim <L> sch <m> (s<i> | c<i>)*`, obs `acq.i.n ref.i.n reg.i.n sta.i.n fal.i.n cls.i.n ncl.i.n* |` -/
+/-! ### slot scenarios: `slot lim <L> sch <m> (s<i> | c<i> | f<i>)*` (f = step whose injectable call fails), obs `acq.i.n ref.i.n reg.i.n sta.i.n fal.i.n cls.i.n ncl.i.n* |` -/
 
 def parseSch (tok : String) : Option C17Slot.Sch :=
   match tok.toList with
   | 's' :: r => (String.ofList r).toNat?.map C17Slot.Sch.step
   | 'c' :: r => (String.ofList r).toNat?.map C17Slot.Sch.close
+  | 'f' :: r => (String.ofList r).toNat?.map C17Slot.Sch.stepFail
   | _ => none
 
 def parseSlot (ts : List String) : Option (Nat × List C17Slot.Sch) :=
@@ -149,6 +158,8 @@ def renderSlotEv : C17Slot.Ev → String
   | .fal i n => s!"fal.{i}.{n}"
   | .cls i n => s!"cls.{i}.{n}"
   | .ncl i n => s!"ncl.{i}.{n}"
+  | .dfl i n => s!"dfl.{i}.{n}"
+  | .rfl i n => s!"rfl.{i}.{n}"
 
 def parseSlotEv (tok : String) : Option C17Slot.Ev :=
   match tok.splitOn "." with
@@ -156,7 +167,8 @@ def parseSlotEv (tok : String) : Option C17Slot.Ev :=
     let i ← i.toNat?; let n ← n.toNat?
     match k with
     | "acq" => pure (.acq i n) | "ref" => pure (.ref i n) | "reg" => pure (.reg i n) | "sta" => pure (.sta i n)
-    | "fal" => pure (.fal i n) | "cls" => pure (.cls i n) | "ncl" => pure (.ncl i n) | _ => none
+    | "fal" => pure (.fal i n) | "cls" => pure (.cls i n) | "ncl" => pure (.ncl i n)
+    | "dfl" => pure (.dfl i n) | "rfl" => pure (.rfl i n) | _ => none
   | _ => none
 
 def runModel (ts : List String) : String :=
